@@ -168,12 +168,16 @@ func VH_C09_Loop() {
 		seq = s
 	case 3:
 		symTag("multibyte-string")
-		runes := []rune("é𝄞λzß")[:n]
-		for i, r := range runes {
-			vals[i] = string(r)
+		// every sequence of n characters from: 2-, 3- and 4-byte letters, the replacement character
+		// U+FFFD (validly encoded), a combining mark, an ASCII letter
+		pool := []string{"\xc3\xa9", "\xf0\x9d\x84\x9e", "\xce\xbb", "\xef\xbf\xbd", "\xcc\x81", "z"}
+		str := ""
+		for i := 0; i < n; i++ {
+			vals[i] = pool[symChoice(len(pool))]
 			keys[i] = strconv.Itoa(i)
+			str += vals[i]
 		}
-		seq = string(runes)
+		seq = str
 	case 4:
 		symTag("int-slice")
 		xs := make([]int, n)
